@@ -796,7 +796,8 @@ package gtab
 
 // Mark-to-mark attachment (GPOS lookup type 6): as type 4 with the second mark
 // in the role of the base; the first mark's placement offsets are SET (not
-// adjusted) from the two anchors and the advances in between.
+// adjusted) from the two anchors, the offset of the second mark and the
+// advances in between.
 //@ func (l *Gpos6_1) apply(ctx *Context, a int, b int) (next int)   props: C06 C07
 //@   requires l != nil && ctx != nil && 0 <= a && a < b && b <= len(ctx.seq) && stackinv(ctx) && inside(ctx, b) && keepOK(ctx) && llOK(ctx)
 //@   requires forall g uint16 :: has(l.Mark1Cov, g) ==> 0 <= l.Mark1Cov[g] && l.Mark1Cov[g] < len(l.Mark1Array)
@@ -807,7 +808,9 @@ package gtab
 //@   ensures forall i int :: 0 <= i && i < len(ctx.seq) ==> ctx.seq[i].GID == old(ctx.seq[i].GID) && ctx.seq[i].Advance == old(ctx.seq[i].Advance)
 //@   ensures forall i int :: 0 <= i && i < len(ctx.seq) && (i != a || next == -1) ==> ctx.seq[i].XOffset == old(ctx.seq[i].XOffset) && ctx.seq[i].YOffset == old(ctx.seq[i].YOffset)
 //@   return_assert next >= 0 ==> 0 <= p && p < a && has(l.Mark2Cov, seq[p].GID) && forall q int :: p < q && q < a ==> !has(l.Mark2Cov, seq[q].GID)
-//@   return_assert next >= 0 ==> seq[a].YOffset == int16(mark2Record.Y - mark1Record.Y)
+// OpenType: 'the mark1 anchor is aligned with the mark2 anchor'.  Offsets are relative to the pen position and pen(a) = pen(p) + the advances of p..a-1, so in the 16-bit arithmetic of funit.Int16 (defect F44 found here: the offset of mark2 itself was ignored)
+//@   return_assert next >= 0 ==> seq[a].YOffset == int16(seq[p].YOffset + mark2Record.Y - mark1Record.Y)
+//@   return_assert next >= 0 ==> seq[a].XOffset == int16(old(ctx.seq[p].XOffset) + mark2Record.X - mark1Record.X - old(advsum(ctx.seq, p, a)))   // advances are not changed by this lookup (ensures above)
 //@   return_assert next >= 0 ==> forall q int :: p < q && q < a ==> !keptG(ctx.keep, seq[q].GID)   // OpenType: the second mark is the nearest preceding glyph the lookup flags do not skip (open finding F38)
 //@   modifies ctx.seq[*]
 //@   loop 0
@@ -815,6 +818,7 @@ package gtab
 //@     invariant forall q int :: p < q && q < a ==> !has(l.Mark2Cov, seq[q].GID)
 //@     decreases p + 1
 //@   loop 1
+//@     invariant dx == int16(seq[p].XOffset + mark2Record.X - mark1Record.X - advsum(seq, p, i))
 //@     invariant p <= i && i <= a && 0 <= p && ref(seq) == ref(ctx.seq) && off(seq) == off(ctx.seq) && len(seq) == len(ctx.seq) && len(ctx.seq) == old(len(ctx.seq))
 //@     decreases a - i
 
